@@ -5,19 +5,19 @@ import CentrifugeVerif.Proofs.ControlUnsub
 `Node.Unsubscribe` is documented as: "If a channel is empty string then user will be unsubscribed from all
 channels."  Model: `Model/ControlUnsub.lean` (cluster of nodes × connections × their subscriptions × the targeting
 options; the hub calls are the regenerated `Gen/ControlCodec.lean` ones, so the remote path is the real codec).
+`Mode.fixed` is the code as it is (since /repo commit 770c28ff, the fix for finding C28-1); `Mode.preFix` the code before.
 
-* `node_unsubscribe_empty_all` (documented behaviour = `Mode.fixed`, i.e. the code with
-  `props/C28/proposed_fix.diff`): for every cluster, calling node, user, option record and every label-filter
-  semantics, after `Node.Unsubscribe(user, "")` every addressed connection — on the calling node and on every other
-  node alike — has no subscription left, every other connection is untouched, and the effects are exactly the
+* `node_unsubscribe_empty_all` — **the property, at full strength, for the current code**: for every well-formed
+  cluster (any number of nodes and connections), calling node, user, option record and every label-filter semantics,
+  after `Node.Unsubscribe(user, "")` every addressed connection — on the calling node and on every other node
+  alike — has no subscription left, every other connection is untouched, and the effects are exactly the
   per-channel unsubscribe effects (presence removal when the subscription emitted presence, leave when it emitted
   join/leave, `OnUnsubscribe` callback, unsubscribe push naming that channel) of every subscription the addressed
-  connections had.  Corollaries restate this pointwise.
-* The same statement for the code as it is (`Mode.current`) is FALSE: `current_unsubscribe_empty_noop` proves that
-  for every well-formed cluster the call removes nothing and only sends one unsubscribe push with an empty channel
-  name to every addressed connection; `current_counter_witness` is a decided one-connection instance
-  (finding C28-1, `props/C28/findings.json`).
-* `fixed_eq_current_of_ne` : for a non-empty channel the two modes coincide (the proposed fix changes nothing else).
+  connections had.  `node_unsubscribe_empty_state / _effects / _only` restate this pointwise.
+* History (pre-fix code, `Mode.preFix`): `prefix_unsubscribe_empty_noop` proves that before the fix the call removed
+  nothing for any well-formed cluster and only sent unsubscribe pushes with an empty channel name;
+  `prefix_counter_witness` is the decided one-connection instance that was finding C28-1.
+* `fixed_eq_prefix_of_ne` : for a non-empty channel the two modes coincide (the fix changed nothing else).
 -/
 namespace CentrifugeVerif.ControlUnsub
 open CentrifugeVerif.Gen.ControlCodec
@@ -26,7 +26,7 @@ open CentrifugeVerif.Gen.ControlCodec
 empty — both are guaranteed by `Client.Subscribe` / the subscribe command and the map type of `c.channels`). -/
 def ClusterWF (cluster : List (List Conn)) : Prop := ∀ n ∈ cluster, ∀ c ∈ n, ConnWF c
 
-/-- **Main theorem (documented behaviour).** -/
+/-- **Main theorem**: the documented behaviour holds for the code as it is (`Mode.fixed`). -/
 theorem node_unsubscribe_empty_all (fm : FilterMatch) (valid : GFilterNode → Bool) (cluster : List (List Conn))
     (i : Nat) (user : String) (o : GUnsubscribeOptions) (hwf : ClusterWF cluster)
     (hvalid : ∀ f, o.labelFilter = some f → valid f = true) :
@@ -101,25 +101,25 @@ theorem node_unsubscribe_empty_only (fm : FilterMatch) (valid : GFilterNode → 
     exact ⟨n, hn, c, hc, ha, he⟩
   · simp [ha] at he
 
-/-- **The code as it is**: with an empty channel nothing is removed anywhere; every addressed connection only
-receives an unsubscribe push with an empty channel name. -/
-theorem current_unsubscribe_empty_noop (fm : FilterMatch) (valid : GFilterNode → Bool) (cluster : List (List Conn))
+/-- **The code before the fix** (`Mode.preFix`): with an empty channel nothing was removed anywhere; every addressed
+connection only received an unsubscribe push with an empty channel name. -/
+theorem prefix_unsubscribe_empty_noop (fm : FilterMatch) (valid : GFilterNode → Bool) (cluster : List (List Conn))
     (i : Nat) (user : String) (o : GUnsubscribeOptions) (hwf : ClusterWF cluster) :
-    (nodeUnsubscribe .current fm valid cluster i user "" o).1 = cluster ∧
-    ∀ e ∈ (nodeUnsubscribe .current fm valid cluster i user "" o).2, ∃ cid code reason, e = Ev.push cid "" code reason := by
-  have key : clusterUnsubscribe .current fm i user "" o 0 cluster =
+    (nodeUnsubscribe .preFix fm valid cluster i user "" o).1 = cluster ∧
+    ∀ e ∈ (nodeUnsubscribe .preFix fm valid cluster i user "" o).2, ∃ cid code reason, e = Ev.push cid "" code reason := by
+  have key : clusterUnsubscribe .preFix fm i user "" o 0 cluster =
       (cluster, cluster.flatMap fun n => n.flatMap fun c =>
         if addressed fm (localUnsubscribe user "" o) c then
           [Ev.push c.id "" (localUnsubscribe user "" o).unsubscribe.Code (localUnsubscribe user "" o).unsubscribe.Reason]
         else []) := by
     rw [clusterUnsubscribe_eq]
-    have h : ∀ n ∈ cluster, hubUnsubscribe .current fm (localUnsubscribe user "" o) n = (n, _) :=
-      fun n hn => hubUnsubscribe_current_empty fm _ (local_ch user "" o) n (hwf n hn)
+    have h : ∀ n ∈ cluster, hubUnsubscribe .preFix fm (localUnsubscribe user "" o) n = (n, _) :=
+      fun n hn => hubUnsubscribe_preFix_empty fm _ (local_ch user "" o) n (hwf n hn)
     congr 1
     · conv => rhs; rw [← List.map_id cluster]
       exact List.map_congr_left fun n hn => by rw [h n hn]; rfl
     · exact flatMap_congr' fun n hn => by rw [h n hn]
-  have hev : ∀ e ∈ (clusterUnsubscribe .current fm i user "" o 0 cluster).2,
+  have hev : ∀ e ∈ (clusterUnsubscribe .preFix fm i user "" o 0 cluster).2,
       ∃ cid code reason, e = Ev.push cid "" code reason := by
     rw [key]
     intro e he
@@ -150,36 +150,36 @@ example : ClusterWF witnessCluster := by
   subst hc
   exact ⟨by decide, by decide⟩
 
-/-- **Counter-witness (finding C28-1)**: on the code as it is, `Node.Unsubscribe("u", "")` leaves the connection
-subscribed to `ch` and produces a single unsubscribe push with an empty channel name. -/
-theorem current_counter_witness :
-    nodeUnsubscribe .current (fun _ _ => true) (fun _ => true) witnessCluster 0 "u" "" {} =
+/-- **Pre-fix counter-witness (finding C28-1, fixed by 770c28ff)**: before the fix `Node.Unsubscribe("u", "")` left
+the connection subscribed to `ch` and produced a single unsubscribe push with an empty channel name. -/
+theorem prefix_counter_witness :
+    nodeUnsubscribe .preFix (fun _ _ => true) (fun _ => true) witnessCluster 0 "u" "" {} =
       (witnessCluster, [Ev.push "c1" "" 2000 "server unsubscribe"]) := by decide
 
-/-- the documented behaviour on the same witness -/
+/-- the current code on the same witness -/
 example :
     nodeUnsubscribe .fixed (fun _ _ => true) (fun _ => true) witnessCluster 0 "u" "" {} =
       ([[{ id := "c1", user := "u", session := "", labels := [], subs := [] }]],
        [Ev.presenceRemove "c1" "ch", Ev.leave "c1" "ch", Ev.callback "c1" "ch" 2000 "server unsubscribe",
         Ev.push "c1" "ch" 2000 "server unsubscribe"]) := by decide
 
-/-- the proposed fix changes nothing for a non-empty channel -/
-theorem fixed_eq_current_of_ne (fm : FilterMatch) (valid : GFilterNode → Bool) (cluster : List (List Conn)) (i : Nat)
+/-- the fix changed nothing for a non-empty channel -/
+theorem fixed_eq_prefix_of_ne (fm : FilterMatch) (valid : GFilterNode → Bool) (cluster : List (List Conn)) (i : Nat)
     (user ch : String) (o : GUnsubscribeOptions) (hch : ch ≠ "") :
-    nodeUnsubscribe .fixed fm valid cluster i user ch o = nodeUnsubscribe .current fm valid cluster i user ch o := by
+    nodeUnsubscribe .fixed fm valid cluster i user ch o = nodeUnsubscribe .preFix fm valid cluster i user ch o := by
   have hc : ∀ (c : Conn) (ch' : String) (u : GUnsubscribe), ch' ≠ "" →
-      clientUnsubscribe .fixed c ch' u = clientUnsubscribe .current c ch' u := by
+      clientUnsubscribe .fixed c ch' u = clientUnsubscribe .preFix c ch' u := by
     intro c ch' u h
     simp [clientUnsubscribe, h]
   have hh : ∀ (call : UnsubscribeCall), call.ch ≠ "" → ∀ conns,
-      hubUnsubscribe .fixed fm call conns = hubUnsubscribe .current fm call conns := by
+      hubUnsubscribe .fixed fm call conns = hubUnsubscribe .preFix fm call conns := by
     intro call h conns
     induction conns with
     | nil => rfl
     | cons c cs ih => simp [hubUnsubscribe, ih, hc c call.ch call.unsubscribe h]
-  have hcl : clusterUnsubscribe .fixed fm i user ch o 0 cluster = clusterUnsubscribe .current fm i user ch o 0 cluster := by
+  have hcl : clusterUnsubscribe .fixed fm i user ch o 0 cluster = clusterUnsubscribe .preFix fm i user ch o 0 cluster := by
     rw [clusterUnsubscribe_eq, clusterUnsubscribe_eq]
-    have : ∀ n, hubUnsubscribe .fixed fm (localUnsubscribe user ch o) n = hubUnsubscribe .current fm (localUnsubscribe user ch o) n :=
+    have : ∀ n, hubUnsubscribe .fixed fm (localUnsubscribe user ch o) n = hubUnsubscribe .preFix fm (localUnsubscribe user ch o) n :=
       fun n => hh _ (by rw [local_ch]; exact hch) n
     simp [this]
   unfold nodeUnsubscribe
